@@ -272,6 +272,26 @@ def run_probe(spec, repo, bdir, gen_name, rl):
                            if f["gen_lines"][0] <= ln <= f["gen_lines"][1]), "?")} for ln in missing]}
 
 
+def run_unit_cached(unit, repo=REPO, tier="quick", probe=True, rlimit=None, keep_log=True, workdir="_unit"):
+    """Developer aid (tools/run_seeded.py): the property checks of ONE scratch tree share unit results
+    through a cache directory; never set for the registered commands."""
+    cdir = os.environ.get("VERIF_UNIT_CACHE")
+    if not cdir:
+        return run_unit(unit, repo, tier, probe, rlimit, keep_log, workdir)
+    import fcntl, pickle
+    os.makedirs(cdir, exist_ok=True)
+    cfile = os.path.join(cdir, "%s.%s.pkl" % (unit, tier))
+    with open(cfile + ".lock", "w") as lk:
+        fcntl.flock(lk, fcntl.LOCK_EX)
+        if os.path.exists(cfile):
+            with open(cfile, "rb") as f:
+                return pickle.load(f)
+        res = run_unit(unit, repo, tier, probe, rlimit, keep_log, "_shared" + os.environ.get("VERIF_BUILD_TAG", "")[:7])
+        with open(cfile, "wb") as f:
+            pickle.dump(res, f)
+        return res
+
+
 def run_unit(unit, repo=REPO, tier="quick", probe=True, rlimit=None, keep_log=True, workdir="_unit", smt_seed=None):
     cfg = CONFIG["units"][unit]
     res = UnitResult(unit)
@@ -506,7 +526,7 @@ def check_property(prop, tier, seed, jobs=4):
         units += pc.get("units_thorough", [])
     results = {}
     with concurrent.futures.ThreadPoolExecutor(max_workers=jobs) as ex:
-        futs = {ex.submit(run_unit, u, REPO, tier, True, None, False, prop + os.environ.get("VERIF_BUILD_TAG", "")): u for u in units}
+        futs = {ex.submit(run_unit_cached, u, REPO, tier, True, None, False, prop + os.environ.get("VERIF_BUILD_TAG", "")): u for u in units}
         for fu in concurrent.futures.as_completed(futs):
             results[futs[fu]] = fu.result()
     bfull = baseline()
